@@ -47,6 +47,45 @@ def detect_cases():
     return list(itertools.product(fmts, cts, fns))
 
 
+def check_translated_detect(run: lib.Run, audit: dict, violations: list) -> None:
+    """tie by regeneration: `_detect_format` as written now, translated into Lean, is proved equal to the model's `detectFormat`
+    (Run/C17_translated.lean), and the translation is evaluated against the Python function (Run/SrcEval.lean)"""
+    import subprocess
+    tr = audit["facts"].get("translated_source")
+    ok, detail = lib.run_obligation("C17_translated")
+    run.obligation("C17_translated: Generated.Src.detect_format = Rbacx.detectFormat, for every input", ok,
+                   "discharged" if ok else (str(tr.get("extraction_failed")) if isinstance(tr, dict) and "extraction_failed" in tr else detail))
+    if not ok:
+        path = run.write_replay("obligation", {"what": "per-run obligation Rbacx/Run/C17_translated.lean no longer checks: the translated source of "
+                                               "_detect_format is not proved equal to the model function theorems Rbacx.C17.c17_detect_* are about "
+                                               "(the exhaustive detection cases of this run are the search for a failing input)",
+                                               "lean": detail[-1500:]})
+        run.extra["translated_obligation_replay"] = path
+        return
+    vals = [None, "", "json", "yaml", "JSON", "Yaml", "yml", "x", "application/json", "application/x-yaml; charset=utf-8", "text/yaml", "TEXT/YAML",
+            "application/octet-stream", "a.yaml", "A.YML", "p.json", "dir.yaml/p", "p.yaml.json", ".yml", "json.yaml", "x-yaml", "jsonyaml"]
+    calls = [(fn, ct, fmt) for fn in vals for ct in vals for fmt in vals[:9]]
+    lines = [json.dumps({"fn": "_detect_format", "args": [proto.enc(a) for a in c]}) for c in calls]
+    p = subprocess.run(["lake", "env", "lean", "--run", "Rbacx/Run/SrcEval.lean"], cwd=lib.LEAN, input="\n".join(lines) + "\n",
+                       capture_output=True, text=True, timeout=900)
+    outs = [ln for ln in p.stdout.split("\n") if ln]
+    good = p.returncode == 0 and len(outs) == len(lines)
+    bad = 0
+    if good:
+        for (fn, ct, fmt), ln in zip(calls, outs):
+            want = rloader._detect_format(filename=fn, content_type=ct, fmt=fmt)
+            got = json.loads(ln)
+            run.count("translated-vs-python")
+            if "value" not in got or proto.dec(got["value"]) != want:
+                bad += 1
+                if bad == 1:
+                    run.disagreements.append({"part": "translator", "what": "translated _detect_format (Generated.Src) and the Python function differ",
+                                              "args": [fn, ct, fmt], "python": want, "translated": got})
+        run.evaluations += len(calls)
+    run.obligation("translated _detect_format evaluates like the Python function (translator + Model/PyLib.lean vs CPython, ASCII inputs)",
+                   good and bad == 0, "agree" if good and bad == 0 else (f"{bad} of {len(calls)} differ" if good else (p.stderr or p.stdout)[-500:]))
+
+
 def check_detect(run: lib.Run):
     cases = detect_cases()
     cmds = [{"cmd": "detect-format", "fmt": f, "content_type": c, "filename": n} for f, c, n in cases]
@@ -329,6 +368,7 @@ def check(run: lib.Run, audit: dict) -> int:
     if not audit["ok"]:
         raise lib.CheckError(f"Lean build/audit failed at {audit['stage']}: {audit.get('log') or audit.get('forbidden') or audit.get('bad_axioms')}")
     violations: list = []
+    check_translated_detect(run, audit, violations)
     check_detect(run)
     check_paths_and_tools(run, audit)
     check_defaults(run, audit, violations, scale=run.boost)
@@ -341,6 +381,8 @@ def check(run: lib.Run, audit: dict) -> int:
         path = run.write_replay("correspondence", {"what": "model and engine disagree on algorithm-less documents; theorems Rbacx.C17.* no longer speak "
                                                    "about this code", "first": run.disagreements[0], "count": len(run.disagreements)})
         violations.append((path, False))
+    elif run.extra.get("translated_obligation_replay") and not violations:
+        violations.append((run.extra["translated_obligation_replay"], False))
     return run.finish(audit, violations)
 
 
